@@ -24,8 +24,9 @@ package boc
 //                     Hash = SHA256(repr), Depth = 0 without refs, else 1 + max child depth (at most 1024)
 //
 //    It only reads the raw fields of Cell (bits.buf, bits.len, refs, cellType); it never calls the library's hashing code,
-//    level-mask helpers, d1/d2 or bocReprWithoutRefs. Data bits are extracted one by one (ideal bit list), so stray bits
-//    behind the logical length do not leak into the reference value.
+//    level-mask helpers, d1/d2 or bocReprWithoutRefs. The data part is rebuilt from the logical length (bits behind it are
+//    replaced by the completion tag; C02 cross-checks this against a bit-by-bit ideal bit list), so stray bits behind the
+//    logical length do not leak into the reference value.
 //    In "pure" mode it is a plain recursion without any memoisation (used for the small enumerated DAGs); with memo=true
 //    it keeps its own (cell, level) table so that real blocks with tens of thousands of shared cells stay linear.
 //
